@@ -224,9 +224,30 @@ def extract(src_text, spec):
         if L.get("decreases"):
             ann += "\n            decreases " + L["decreases"] + ","
         inner = ""
+        if L.get("body_start"):
+            inner += "\n            " + L["body_start"]
         if L.get("proof"):
-            inner = "\n            proof { " + L["proof"] + " }"
-        body = body[:ob].rstrip() + ann + "\n        {" + inner + body[ob + 1:]
+            inner += "\n            proof { " + L["proof"] + " }"
+        # matching close brace of the loop body
+        d = 0
+        cb = None
+        for i, c in _scan(body, ob):
+            if c == "{":
+                d += 1
+            elif c == "}":
+                d -= 1
+                if d == 0:
+                    cb = i
+                    break
+        if cb is None:
+            raise LostAnchor("while body end in fn %s" % name)
+        tail = body[cb + 1:]
+        if L.get("proof_after"):
+            tail = "\n        proof { " + L["proof_after"] + " }" + tail
+        inner_end = ""
+        if L.get("proof_end"):
+            inner_end = "    proof { " + L["proof_end"] + " }\n        "
+        body = body[:ob].rstrip() + ann + "\n        {" + inner + body[ob + 1:cb] + inner_end + "}" + tail
     # fn-level clauses
     clauses = ""
     if spec.get("requires"):
